@@ -1,1 +1,2 @@
 import Generated.Flags
+import Generated.Config
